@@ -258,7 +258,7 @@ Proof. intros a (A & B). congruence. Qed.
 
 Lemma co_destroy_shape : forall k s r s1, co_destroy k s = (r, s1) -> s1 = s \/ s1 = set_cos s (del k (cos s)).
 Proof.
-  intros k s r s1 H. unfold co_destroy in H. rewrite destroy_order_fixed, andb_false_r in H.
+  intros k s r s1 H. unfold co_destroy, co_destroy_with in H. rewrite destroy_order_fixed, andb_false_r in H.
   assert (M : forall e s2, mco_destroy k s = (e, s2) -> s2 = s \/ s2 = set_cos s (del k (cos s))).
   { intros e s2 D. unfold mco_destroy in D. destruct (get k (cos s)); [|inversion D; auto].
     destruct (cstate_eqb (co_st c) Suspended || cstate_eqb (co_st c) Dead); inversion D; auto. }
